@@ -89,7 +89,8 @@ class CHECK(Check):
             "(c) random histories up to length 30 over a pool of 8. After every operation: list(container), "
             "backward walk, len, first, last, previous/next/is_first/is_last of every member. Only the sole-"
             "element removal is excluded. non-trivial = history contains an insertion next to or a removal of an "
-            "end or a re-insertion; distinct = distinct case hash")
+            "end or a re-insertion; distinct = distinct case hash"
+            " Later additions: a third of the operations run under a suspended iterator (exhausted afterwards), len() asked before any walk, a third of the cases use base-class components without a usable ==.")
 
     def gen(self, tier, rng):
         depth = 4 if tier == "quick" else 5
